@@ -90,8 +90,22 @@ Definition out_ok (outs cb : list string) (a : fconv * string) : bool :=
   if mem r outs && passes_value c then by_ref c || (fconv_eqb c FBool && mem r cb) else true.
 Definition outs_ok (f : fcall) : bool := forallb (out_ok (fc_outputs f) (fc_copyback f)) (fc_args f).
 
+(* a character dummy handed to C as its own storage is blank padded, not NUL terminated: the same call must also pass its
+   length (len_trim(name) or len(name): the bufferify interface; the parameter's name is the user's choice through +len /
+   +len_trim); without one the documented form is trim(name)//C_NULL_CHAR *)
+Definition has_length (args : list (fconv * string)) (p : string) : bool :=
+  existsb (fun a => (fconv_eqb (fst a) FLen || fconv_eqb (fst a) FLenTrim) && String.eqb (snd a) p) args.
+Definition char_ok (ks : list (string * dkind)) (ds : list string) (args : list (fconv * string)) (pa : string * (fconv * string)) : bool :=
+  let '(p, (c, _)) := pa in
+  match kind_of p ks, c with
+  | DChar, FDirect => negb (mem p ds) || has_length args p
+  | _, _ => true
+  end.
+Definition chars_ok (f : fcall) : bool :=
+  forallb (char_ok (fc_kinds f) (fc_dummies f) (fc_args f)) (combine (fc_params f) (fc_args f)).
+
 Definition fcall_ok (f : fcall) : bool :=
-  args_ok (fc_kinds f) (fc_dummies f) (fc_params f) (fc_args f) && outs_ok f.
+  args_ok (fc_kinds f) (fc_dummies f) (fc_params f) (fc_args f) && outs_ok f && chars_ok f.
 
 (* what the caller's variable holds after the call, when the C function stored [stored r] through the argument it was given *)
 Definition caller_sees (f : fcall) (stored before : string -> nat) (r : string) : nat :=
